@@ -137,3 +137,121 @@ pub fn lossy(b: &[u8]) -> String {
 pub fn is_char_boundary(bytes: &[u8], i: usize) -> bool {
     i == 0 || i >= bytes.len() || (bytes[i] & 0xC0) != 0x80
 }
+
+/// Independent reading of the restricted grammar of `gen::simple_escape_workload`: the visible
+/// text of a stream made of plain text and well-formed escape sequences, following the DEC
+/// VT500-series parser model the crate documents itself as implementing:
+/// * text: printable ASCII and characters from U+00A0 up are visible, so are HT LF FF CR; every
+///   other C0 control and DEL are not;
+/// * `ESC` starts a sequence in any state; CAN and SUB abort one;
+/// * `ESC [` parameters intermediates final; `ESC ]` payload up to BEL; `ESC P` header final
+///   payload, `ESC X` / `ESC ^` / `ESC _` payload, the last four up to the 8-bit ST (0x9c); every
+///   string also ends at `ESC \` (an ESC sequence of its own); `ESC` intermediates final.
+/// `None` when the input leaves that grammar (nothing is claimed then).  Shares no code with
+/// anstyle-parse or the strip adapters.
+pub fn simple_strip_model(input: &[u8]) -> Option<Vec<u8>> {
+    #[derive(Clone, Copy, PartialEq)]
+    enum M {
+        Ground,
+        Esc(u8),
+        CsiParams(u8, bool),
+        CsiInter(u8),
+        Osc,
+        PlainStr,
+        DcsHead(u8),
+        DcsFinal,
+        DcsBody,
+    }
+    let b = input;
+    let mut out = Vec::with_capacity(b.len());
+    let mut m = M::Ground;
+    let mut sequences = 0usize;
+    let mut i = 0usize;
+    while i < b.len() {
+        let c = b[i];
+        i += 1;
+        if c == 0x1b {
+            sequences += 1;
+            m = M::Esc(0);
+            continue;
+        }
+        if (c == 0x18 || c == 0x1a) && m != M::Ground {
+            m = M::Ground;
+            continue;
+        }
+        m = match m {
+            M::Ground => {
+                match c {
+                    b'\t' | b'\n' | 0x0c | b'\r' | 0x20..=0x7e => out.push(c),
+                    0x00..=0x1f | 0x7f => {}
+                    _ => {
+                        let len = match c {
+                            0xc2..=0xdf => 2,
+                            0xe0..=0xef => 3,
+                            0xf0..=0xf4 => 4,
+                            _ => return None,
+                        };
+                        let chunk = b.get(i - 1..i - 1 + len)?;
+                        let ch = std::str::from_utf8(chunk).ok()?.chars().next()?;
+                        if (ch as u32) < 0xa0 {
+                            return None;
+                        }
+                        out.extend_from_slice(chunk);
+                        i += len - 1;
+                    }
+                }
+                M::Ground
+            }
+            M::Esc(n) => match c {
+                0x20..=0x2f if n < 2 => M::Esc(n + 1),
+                b'[' if n == 0 => M::CsiParams(0, true),
+                b']' if n == 0 => M::Osc,
+                b'P' if n == 0 => M::DcsHead(0),
+                b'X' | b'^' | b'_' if n == 0 => M::PlainStr,
+                0x30..=0x7e => M::Ground,
+                _ => return None,
+            },
+            M::CsiParams(n, first) => match c {
+                b'<' | b'=' | b'>' | b'?' if first => M::CsiParams(n, false),
+                b'0'..=b'9' | b';' | b':' if n < 16 => M::CsiParams(n + 1, false),
+                0x20..=0x2f => M::CsiInter(1),
+                0x40..=0x7e => M::Ground,
+                _ => return None,
+            },
+            M::CsiInter(n) => match c {
+                0x20..=0x2f if n < 2 => M::CsiInter(n + 1),
+                0x40..=0x7e => M::Ground,
+                _ => return None,
+            },
+            M::Osc => match c {
+                0x07 => M::Ground,
+                0x20..=0x7e => M::Osc,
+                _ => return None,
+            },
+            M::PlainStr => match c {
+                0x9c => M::Ground,
+                0x20..=0x7e => M::PlainStr,
+                _ => return None,
+            },
+            M::DcsHead(n) => match c {
+                b'0'..=b'9' | b';' if n < 8 => M::DcsHead(n + 1),
+                0x20..=0x2f => M::DcsFinal,
+                0x40..=0x7e => M::DcsBody,
+                _ => return None,
+            },
+            M::DcsFinal => match c {
+                0x40..=0x7e => M::DcsBody,
+                _ => return None,
+            },
+            M::DcsBody => match c {
+                0x9c => M::Ground,
+                0x20..=0x7e => M::DcsBody,
+                _ => return None,
+            },
+        };
+    }
+    if sequences == 0 {
+        return None;
+    }
+    Some(out)
+}
